@@ -306,6 +306,8 @@ pub fn end() -> EndStats {
         for k in 0..(*t).len {
             let slot = *(*t).order.add(k) as usize;
             let e = *(*t).table.add(slot);
+            // Poison before releasing: a later execution must never find a stale, valid-looking value in fresh memory
+            ptr::write_bytes(e.ptr as *mut u8, 0xDE, e.size);
             System.dealloc(e.ptr as *mut u8, Layout::from_size_align_unchecked(e.size, e.align as usize));
             *(*t).table.add(slot) = EMPTY;
         }
